@@ -455,9 +455,16 @@ fn body_sockio(plan: &J) {
         probe("io.partial");
     }
     let hist: Vec<String> = k.calls.iter().map(|c| format!("{:?}->{}", c.resp, c.moved)).collect();
+    // every oracle is evaluated; the failures (they belong to different properties) are reported together
+    let mut fails: Vec<(String, String)> = Vec::new();
+    macro_rules! flag {
+        ($c:expr, $m:expr $(,)?) => {
+            fails.push(($c.to_string(), $m))
+        };
+    }
     // ---- C18: blocking mode untouched
     if flags_before != flags_after {
-        fail("fd-mode-changed", format!("hooked {call}: fcntl(F_GETFL) was {flags_before:#x} before and {flags_after:#x} after the call (kernel responses {hist:?})"));
+        flag!("fd-mode-changed", format!("hooked {call}: fcntl(F_GETFL) was {flags_before:#x} before and {flags_after:#x} after the call (kernel responses {hist:?})"));
     }
     // ---- C17: what the kernel was handed
     let mut done = 0usize;
@@ -466,7 +473,7 @@ fn body_sockio(plan: &J) {
         let want_from = done.min(flat_addr.len());
         let ok = handed.len() <= flat_addr.len() - want_from && handed[..] == flat_addr[want_from..want_from + handed.len()];
         if !ok {
-            fail(
+            flag!(
                 "iov-wrong-ranges",
                 format!(
                     "hooked {call}: inner call #{ci} (after {done} of {total} bytes) was handed {} byte(s) in {} element(s) (count argument {}) that are not the caller's next unfilled bytes: ranges {:?}, caller buffers {:?}",
@@ -480,51 +487,51 @@ fn body_sockio(plan: &J) {
         }
         if vectored && c.ranges.iter().filter(|r| r.1 > 0).count() == 0 && total > done && !c.ranges.is_empty() {
             // only empty elements although bytes remain
-            fail("iov-wrong-ranges", format!("hooked {call}: inner call #{ci} was handed only empty elements while {} byte(s) remain", total - done));
+            flag!("iov-wrong-ranges", format!("hooked {call}: inner call #{ci} was handed only empty elements while {} byte(s) remain", total - done));
         }
         done += c.moved;
     }
     // ---- C16: bytes and return value
     if write {
         if k.sink[..] != sent_data[..m.min(sent_data.len())] || m > sent_data.len() {
-            fail("bytes-wrong", format!("hooked {call}: the kernel received {:?}, the caller's first {m} bytes are {:?}", &k.sink, &sent_data[..m.min(sent_data.len())]));
+            flag!("bytes-wrong", format!("hooked {call}: the kernel received {:?}, the caller's first {m} bytes are {:?}", &k.sink, &sent_data[..m.min(sent_data.len())]));
         }
     } else {
         let got: Vec<u8> = bufs.iter().flatten().copied().collect();
         let want: Vec<u8> = (0..m).map(stream_byte).chain(std::iter::repeat(FILL).take(total - m.min(total))).collect();
         if got != want {
-            fail("bytes-wrong", format!("hooked {call}: caller buffers {got:?} != stream prefix of {m} bytes followed by untouched bytes {want:?} (kernel responses {hist:?})"));
+            flag!("bytes-wrong", format!("hooked {call}: caller buffers {got:?} != stream prefix of {m} bytes followed by untouched bytes {want:?} (kernel responses {hist:?})"));
         }
     }
     let last = k.calls.last().map(|c| c.resp);
     if m > 0 {
         if r != m as ssize_t {
-            fail("count-wrong", format!("hooked {call} returned {r} (errno {e}) but {m} byte(s) were moved (kernel responses {hist:?}, lens {lens:?})"));
+            flag!("count-wrong", format!("hooked {call} returned {r} (errno {e}) but {m} byte(s) were moved (kernel responses {hist:?}, lens {lens:?})"));
         }
     } else if total == 0 {
         if r != 0 {
-            fail("count-wrong", format!("hooked {call} with a zero-length request returned {r} (errno {e}), expected 0 (kernel responses {hist:?})"));
+            flag!("count-wrong", format!("hooked {call} with a zero-length request returned {r} (errno {e}), expected 0 (kernel responses {hist:?})"));
         }
     } else {
         match last {
             Some(Resp::Eof) if !write => {
                 if r != 0 {
-                    fail("count-wrong", format!("hooked {call}: end of stream with nothing moved returned {r} (errno {e}), expected 0"));
+                    flag!("count-wrong", format!("hooked {call}: end of stream with nothing moved returned {r} (errno {e}), expected 0"));
                 }
             }
             Some(Resp::Err(want)) => {
                 if r != -1 || e != want {
-                    fail("count-wrong", format!("hooked {call}: the kernel failed with errno {want} and nothing was moved, but the call returned {r} with errno {e}"));
+                    flag!("count-wrong", format!("hooked {call}: the kernel failed with errno {want} and nothing was moved, but the call returned {r} with errno {e}"));
                 }
             }
             Some(Resp::WouldBlock) | Some(Resp::Intr) | None => {
                 if r != -1 || !(e == libc::EAGAIN || e == libc::EWOULDBLOCK || e == libc::EINTR || e == libc::ETIMEDOUT) {
-                    fail("count-wrong", format!("hooked {call}: nothing was moved (kernel responses {hist:?}) but the call returned {r} with errno {e}"));
+                    flag!("count-wrong", format!("hooked {call}: nothing was moved (kernel responses {hist:?}) but the call returned {r} with errno {e}"));
                 }
             }
             _ => {
                 if r > 0 {
-                    fail("count-wrong", format!("hooked {call} returned {r} although nothing was moved (kernel responses {hist:?})"));
+                    flag!("count-wrong", format!("hooked {call} returned {r} although nothing was moved (kernel responses {hist:?})"));
                 }
             }
         }
@@ -534,7 +541,7 @@ fn body_sockio(plan: &J) {
     if nonblocking {
         if let Some(i) = first_block {
             if k.calls.len() > i + 1 || elapsed > 1_000_000 {
-                fail(
+                flag!(
                     "nonblocking-waited",
                     format!(
                         "hooked {call} on an O_NONBLOCK descriptor: the kernel answered would-block at inner call #{i}, but the hook made {} more call(s) and took {} us instead of returning at once (kernel responses {hist:?})",
@@ -544,7 +551,7 @@ fn body_sockio(plan: &J) {
                 );
             }
             if m == 0 && (r != -1 || !(e == libc::EAGAIN || e == libc::EWOULDBLOCK)) {
-                fail("nonblocking-waited", format!("hooked {call} on an O_NONBLOCK descriptor that would block returned {r} errno {e}, expected -1/EAGAIN"));
+                flag!("nonblocking-waited", format!("hooked {call} on an O_NONBLOCK descriptor that would block returned {r} errno {e}, expected -1/EAGAIN"));
             }
             probe("io.nonblocking-wouldblock");
         }
@@ -553,9 +560,13 @@ fn body_sockio(plan: &J) {
         let want = timeout_ms * 1_000_000;
         let slack = 3 * SLICE_NS + want / 50;
         if elapsed < want || elapsed > want + slack {
-            fail("socket-timeout", format!("hooked {call}: SO_{}TIMEO is {timeout_ms} ms and the peer stayed silent, but the call returned after {} us", if write { "SND" } else { "RCV" }, elapsed / 1_000));
+            flag!("socket-timeout", format!("hooked {call}: SO_{}TIMEO is {timeout_ms} ms and the peer stayed silent, but the call returned after {} us", if write { "SND" } else { "RCV" }, elapsed / 1_000));
         }
         probe("io.timed-out");
+    }
+    if !fails.is_empty() {
+        drop(g);
+        crate::child::fail_multi(fails);
     }
     drop(g);
     unsafe {
@@ -791,6 +802,10 @@ fn gen_timed(g: &mut Rng, _tier: Tier) -> J {
         "invalid" => invalid,
         "caller" => if g.chance(1, 2) { "thread" } else { "coroutine" },
         "busy_sibling" => g.chance(1, 4),
+        // coroutine callers: an earlier hooked recv on a silent socket has timed out (its descriptor stays
+        // registered for this coroutine) and the socket becomes readable in the middle of the timed wait
+        "stale_event" => g.chance(1, 3),
+        "write_at_pct" => g.range(5, 90),
         "sim" => gen_sim(g, SimOpts { max_points: 3_000_000, max_sim_ms: 60_000, stall: false, timing: true, ..SimOpts::default() }),
     }
 }
@@ -924,15 +939,41 @@ fn body_timed(plan: &J) {
         let out = std::sync::Arc::new(StdMutex::new(None));
         let o2 = out.clone();
         let (c2, i2) = (call.clone(), invalid.clone());
+        let stale = plan.gb("stale_event") && invalid.is_empty() && ns >= 1_000_000;
+        let pair = if stale { Some(socketpair()) } else { None };
+        let began = std::sync::Arc::new(std::sync::atomic::AtomicU64::new(0));
+        let began2 = began.clone();
         let h = EventLoops::submit_task(
             Some("timed-task".into()),
             move |_| {
+                if let Some((fd, _)) = pair {
+                    // times out after 5 ms and leaves the descriptor registered with this coroutine's token
+                    set_timeout(fd, libc::SO_RCVTIMEO, 5);
+                    let mut b = [0u8; 1];
+                    let r0 = hk::recv(None, fd, b.as_mut_ptr().cast(), 1, 0);
+                    if r0 != -1 {
+                        crate::child::harness_error(format!("prelude recv on a silent socket returned {r0}"));
+                    }
+                    probe("timed.stale-registration");
+                }
+                began2.store(now(), std::sync::atomic::Ordering::SeqCst);
                 *o2.lock().unwrap_or_else(|e| e.into_inner()) = Some(timed_call(&c2, ns, &i2));
                 Some(1)
             },
             None,
             None,
         );
+        if let Some((_, peer)) = pair {
+            // make the registered descriptor readable in the middle of the timed wait
+            let t_wait = now();
+            while began.load(std::sync::atomic::Ordering::SeqCst) == 0 && now() - t_wait < 5_000_000_000 {
+                vstd::thread::sleep(Duration::from_micros(200));
+            }
+            vstd::thread::sleep(Duration::from_nanos(ns / 100 * plan.gu("write_at_pct").clamp(1, 95)));
+            _ = unsafe { libc::write(peer, [7u8].as_ptr().cast(), 1) };
+            mio::vsim_check_ready();
+            sim::count("kern.readiness");
+        }
         match h.timeout_join(Duration::from_secs(40)) {
             Ok(Ok(_)) => {}
             other => fail("hook-call-lost", format!("the task running hooked {call}({ns} ns) did not complete within 40 s: {other:?}; {}", crate::child::last_panic())),
@@ -1002,6 +1043,8 @@ fn gen_sleepers(g: &mut Rng, _tier: Tier) -> J {
         "kind" => *g.pick(&["usleep", "nanosleep", "usleep"]),
         "sibling" => g.chance(2, 3),
         "receivers" => g.below(3),
+        // a task that arrives while every worker is already asleep (0 = none)
+        "late_after_ms" => *g.pick(&[0u64, 0, 1, 3, 8, 30]),
         "sim" => gen_sim(g, SimOpts { max_points: 4_000_000, max_sim_ms: 30_000, timing: true, ..SimOpts::default() }),
     }
 }
@@ -1074,7 +1117,40 @@ fn body_sleepers(plan: &J) {
     }
     let dmax = ds.iter().copied().max().unwrap_or(0);
     let dmin = ds.iter().copied().min().unwrap_or(0);
-    vstd::thread::sleep(Duration::from_millis(dmax + 60 + n as u64));
+    // a latecomer: submitted when the sleepers are asleep, it must be picked up by the loop's next slice,
+    // not when the first sleeper wakes
+    let late_ms = plan.gu("late_after_ms");
+    let mut slept = 0;
+    if late_ms > 0 && late_ms + 40 < dmin {
+        vstd::thread::sleep(Duration::from_millis(late_ms));
+        slept = late_ms;
+        let started = std::sync::Arc::new(std::sync::atomic::AtomicU64::new(0));
+        let st2 = started.clone();
+        let t_sub = now();
+        handles.push(EventLoops::submit_task(
+            Some("latecomer".into()),
+            move |_| {
+                st2.store(now(), std::sync::atomic::Ordering::SeqCst);
+                Some(1)
+            },
+            None,
+            None,
+        ));
+        probe("sleepers.latecomer");
+        vstd::thread::sleep(Duration::from_millis(30));
+        slept += 30;
+        let st = started.load(std::sync::atomic::Ordering::SeqCst);
+        if st == 0 || st - t_sub > 25_000_000 {
+            fail(
+                "loop-stalled",
+                format!(
+                    "{n} tasks sleep {ds:?} ms on one event loop; a task submitted {late_ms} ms later, while they were all asleep, {} (the loop's slice is 10 ms)",
+                    if st == 0 { "had not started 30 ms after its submission".to_string() } else { format!("started only {} us after its submission", (st - t_sub) / 1000) }
+                ),
+            );
+        }
+    }
+    vstd::thread::sleep(Duration::from_millis((dmax + 60 + n as u64).saturating_sub(slept)));
     let da = done_at.lock().unwrap_or_else(|e| e.into_inner()).clone();
     for (i, d) in ds.iter().enumerate() {
         let bound = d * 1_000_000 + 45_000_000 + n as u64 * 1_000_000 + if sibling { 2 * d * 10_000 } else { 0 };
@@ -1106,6 +1182,265 @@ fn body_sleepers(plan: &J) {
         unsafe {
             _ = libc::close(a);
             _ = libc::close(b);
+        }
+    }
+}
+
+// ------------------------------------------------------------------------------------------------
+// connio (C18, connection-establishing calls): connect / accept / accept4 over a scripted kernel
+
+pub static CONNIO: Scenario = Scenario {
+    name: "connio",
+    about: "one hooked connect / accept / accept4 on a real descriptor (a connected socketpair end or a fresh unconnected TCP socket) whose inner call is scripted (success at once / in progress or would-block / EINTR / hard error), blocking or O_NONBLOCK, with and without a socket time limit, from a plain thread or a coroutine task",
+    gen: gen_connio,
+    body: body_connio,
+    key_probes: &["conn.immediate-ok", "conn.inprogress"],
+    wall_ms: 30_000,
+    chunk: 1,
+};
+
+fn gen_connio(g: &mut Rng, _tier: Tier) -> J {
+    let call = *g.pick(&["connect", "connect", "accept", "accept4"]);
+    let nonblocking = g.chance(1, 3);
+    let mut script = Vec::new();
+    for _ in 0..g.below(4) {
+        match g.below(8) {
+            0..=2 => script.push(J::Arr(vec!["block".into()])),
+            3..=4 => script.push(J::Arr(vec!["intr".into()])),
+            5 => script.push(J::Arr(vec!["err".into(), (*g.pick(&[libc::ECONNREFUSED, libc::ENETUNREACH, libc::EMFILE, libc::ECONNABORTED])).into()])),
+            _ => script.push(J::Arr(vec!["ok".into()])),
+        }
+    }
+    let timeout_ms = *g.pick(&[0u64, 0, 5, 30]);
+    // a fresh (never connected) socket keeps answering "not connected" to the hook's own probe: only with
+    // something that bounds the call
+    let fresh = call == "connect" && (nonblocking || timeout_ms > 0) && g.chance(1, 2);
+    let after = if nonblocking || timeout_ms > 0 { *g.pick(&["block", "ok", "err"]) } else { *g.pick(&["ok", "ok", "err"]) };
+    obj! {
+        "call" => call,
+        "script" => J::Arr(script),
+        "after" => after,
+        "nonblocking" => nonblocking,
+        "timeout_ms" => timeout_ms,
+        "fresh" => fresh,
+        "caller" => if g.chance(1, 2) { "thread" } else { "coroutine" },
+        "sim" => gen_sim(g, SimOpts { max_points: 2_000_000, max_sim_ms: 60_000, timing: true, ..SimOpts::default() }),
+    }
+}
+
+#[derive(Clone, Copy, Debug, PartialEq)]
+enum CResp {
+    Ok,
+    Block,
+    Intr,
+    Err(i32),
+}
+
+struct CKernel {
+    script: VecDeque<CResp>,
+    after: CResp,
+    connect: bool,
+    calls: Vec<CResp>,
+}
+
+static CKERNEL: StdMutex<Option<CKernel>> = StdMutex::new(None);
+const ACCEPTED_FD: c_int = 7777;
+
+fn ck_answer() -> c_int {
+    sim::point("kernel.conn");
+    let mut g = CKERNEL.lock().unwrap_or_else(|e| e.into_inner());
+    let k = g.as_mut().expect("ckernel");
+    let r = k.script.pop_front().unwrap_or(k.after);
+    k.calls.push(r);
+    match r {
+        CResp::Ok => {
+            if k.connect {
+                0
+            } else {
+                ACCEPTED_FD
+            }
+        }
+        CResp::Block => {
+            errno_set(if k.connect { libc::EINPROGRESS } else { libc::EAGAIN });
+            -1
+        }
+        CResp::Intr => {
+            errno_set(libc::EINTR);
+            -1
+        }
+        CResp::Err(e) => {
+            errno_set(e);
+            -1
+        }
+    }
+}
+extern "C" fn k_connect(_: c_int, _: *const libc::sockaddr, _: socklen_t) -> c_int {
+    ck_answer()
+}
+extern "C" fn k_accept(_: c_int, _: *mut libc::sockaddr, _: *mut socklen_t) -> c_int {
+    ck_answer()
+}
+extern "C" fn k_accept4(_: c_int, _: *mut libc::sockaddr, _: *mut socklen_t, _: c_int) -> c_int {
+    ck_answer()
+}
+
+fn cresp_of(j: &J) -> CResp {
+    let a = j.arr();
+    match a.first().map_or("", J::s) {
+        "ok" => CResp::Ok,
+        "block" => CResp::Block,
+        "intr" => CResp::Intr,
+        _ => CResp::Err(a.get(1).map_or(libc::ECONNREFUSED, |x| x.i() as i32)),
+    }
+}
+
+fn conn_call(call: &str, fd: c_int) -> (c_int, i32, u64) {
+    errno_set(0);
+    let t = now();
+    let mut addr: libc::sockaddr_in = unsafe { std::mem::zeroed() };
+    addr.sin_family = libc::AF_INET as libc::sa_family_t;
+    addr.sin_port = 9u16.to_be();
+    addr.sin_addr.s_addr = u32::from_be_bytes([127, 0, 0, 1]).to_be();
+    let mut alen = size_of::<libc::sockaddr_in>() as socklen_t;
+    let r = match call {
+        "connect" => hk::connect(
+            Some(&(k_connect as extern "C" fn(c_int, *const libc::sockaddr, socklen_t) -> c_int)),
+            fd,
+            std::ptr::from_ref(&addr).cast(),
+            alen,
+        ),
+        "accept" => hk::accept(
+            Some(&(k_accept as extern "C" fn(c_int, *mut libc::sockaddr, *mut socklen_t) -> c_int)),
+            fd,
+            std::ptr::from_mut(&mut addr).cast(),
+            &raw mut alen,
+        ),
+        _ => hk::accept4(
+            Some(&(k_accept4 as extern "C" fn(c_int, *mut libc::sockaddr, *mut socklen_t, c_int) -> c_int)),
+            fd,
+            std::ptr::from_mut(&mut addr).cast(),
+            &raw mut alen,
+            0,
+        ),
+    };
+    let e = errno_get();
+    (r, e, now() - t)
+}
+
+fn body_connio(plan: &J) {
+    init_runtime(1, 0, 8);
+    let call = plan.gs("call").to_string();
+    let connect = call == "connect";
+    let nonblocking = plan.gb("nonblocking");
+    let timeout_ms = plan.gu("timeout_ms");
+    let fresh = plan.gb("fresh") && connect;
+    let (fd, peer) = if fresh {
+        let s = unsafe { libc::socket(libc::AF_INET, libc::SOCK_STREAM, 0) };
+        if s < 0 {
+            crate::child::harness_error("socket failed".into());
+        }
+        (s, -1)
+    } else {
+        socketpair()
+    };
+    if timeout_ms > 0 {
+        set_timeout(fd, if connect { libc::SO_SNDTIMEO } else { libc::SO_RCVTIMEO }, timeout_ms);
+    }
+    if !connect && !fresh {
+        // make the listening descriptor look readable to the poller, as a pending connection would
+        _ = unsafe { libc::write(peer, [1u8].as_ptr().cast(), 1) };
+    }
+    if nonblocking {
+        unsafe {
+            let fl = libc::fcntl(fd, libc::F_GETFL);
+            _ = libc::fcntl(fd, libc::F_SETFL, fl | libc::O_NONBLOCK);
+        }
+    }
+    let flags_before = unsafe { libc::fcntl(fd, libc::F_GETFL) };
+    *CKERNEL.lock().unwrap_or_else(|e| e.into_inner()) = Some(CKernel {
+        script: plan.ga("script").iter().map(cresp_of).collect(),
+        after: cresp_of(&J::Arr(vec![plan.gs("after").into(), libc::ECONNREFUSED.into()])),
+        connect,
+        calls: Vec::new(),
+    });
+    let class_lost = if nonblocking { "nonblocking-waited" } else { "hook-call-lost" };
+    let (r, e, dt) = if plan.gs("caller") == "coroutine" {
+        let out = std::sync::Arc::new(StdMutex::new(None));
+        let o2 = out.clone();
+        let c2 = call.clone();
+        let h = EventLoops::submit_task(
+            Some("conn-task".into()),
+            move |_| {
+                *o2.lock().unwrap_or_else(|e| e.into_inner()) = Some(conn_call(&c2, fd));
+                Some(1)
+            },
+            None,
+            None,
+        );
+        match h.timeout_join(Duration::from_secs(40)) {
+            Ok(Ok(_)) => {}
+            other => fail(class_lost, format!("the task running the hooked {call} did not complete within 40 s: {other:?}; {}", crate::child::last_panic())),
+        }
+        let x = out.lock().unwrap_or_else(|e| e.into_inner()).take().expect("result");
+        x
+    } else {
+        crate::child::set_stuck_limit_ns(20_000_000_000);
+        crate::child::mon_enter(&format!("{class_lost}|hooked {call}"));
+        let x = conn_call(&call, fd);
+        crate::child::mon_exit();
+        x
+    };
+    let flags_after = unsafe { libc::fcntl(fd, libc::F_GETFL) };
+    let g = CKERNEL.lock().unwrap_or_else(|e| e.into_inner());
+    let k = g.as_ref().expect("ckernel");
+    let hist = format!("{:?}", k.calls);
+    note("inner_calls", k.calls.len());
+    // ---- the caller's blocking mode survives every outcome
+    if flags_after != flags_before {
+        fail(
+            "fd-mode-changed",
+            format!("hooked {call} (returned {r}, errno {e}; kernel responses {hist}) left the descriptor with flags {flags_after:#x}, the caller had set {flags_before:#x} (O_NONBLOCK = {:#x})", libc::O_NONBLOCK),
+        );
+    }
+    let first = k.calls.first().copied();
+    let want_ok = if connect { 0 } else { ACCEPTED_FD };
+    // ---- a non-blocking descriptor never waits
+    if nonblocking {
+        if let Some(i) = k.calls.iter().position(|c| *c == CResp::Block) {
+            if k.calls.len() > i + 1 || dt > 1_000_000 {
+                fail("nonblocking-waited", format!("hooked {call} on an O_NONBLOCK descriptor: the kernel answered {} at inner call #{i}, but the hook made {} more call(s) and took {} us (kernel responses {hist})", if connect { "EINPROGRESS" } else { "EAGAIN" }, k.calls.len() - i - 1, dt / 1000));
+            }
+            let want_e = if connect { libc::EINPROGRESS } else { libc::EAGAIN };
+            if r != -1 || !(e == want_e || e == libc::EWOULDBLOCK) {
+                fail("nonblocking-waited", format!("hooked {call} on an O_NONBLOCK descriptor that would block returned {r} errno {e}, expected -1 errno {want_e}"));
+            }
+            probe("conn.nonblocking");
+        }
+    }
+    // ---- outcomes
+    match first {
+        Some(CResp::Ok) => {
+            probe("conn.immediate-ok");
+            if r != want_ok {
+                fail("conn-wrong-result", format!("hooked {call}: the kernel succeeded at once but the call returned {r} errno {e}"));
+            }
+        }
+        Some(CResp::Err(x)) => {
+            if r != -1 || e != x {
+                fail("conn-wrong-result", format!("hooked {call}: the kernel failed at once with errno {x} but the call returned {r} errno {e}"));
+            }
+        }
+        Some(CResp::Block) => probe("conn.inprogress"),
+        _ => {}
+    }
+    if k.calls.iter().all(|c| matches!(c, CResp::Intr | CResp::Block)) && r >= 0 && !(connect && !fresh) {
+        fail("conn-wrong-result", format!("hooked {call} returned {r} although the kernel never reported success (kernel responses {hist})"));
+    }
+    drop(g);
+    unsafe {
+        _ = libc::close(fd);
+        if peer >= 0 {
+            _ = libc::close(peer);
         }
     }
 }
